@@ -444,19 +444,25 @@ def _ref_task(item):
     return rec
 
 
-MSETS = [(), ("L1",), ("L2",), ("L1", "L2")]
+MSETS = [(), ("L1",), ("L2",), ("L1", "L2"), ("L3",), ("L1", "L3"), ("L2", "L3"), ("L1", "L2", "L3")]
 
 
 def compute_reference(opnames=None, timeout=60.0, coverage=False):
     """R[(op, M)] = record of op executed alone, first, in a pristine child with late set M.
     With coverage=True the smallest admissible M also records which runtime lines the call executes (Z.cov)."""
+    from sim.pool.catalog import L3_SENSITIVE
+
     items = []
+    aliases = []
     for op in Z.ops:
         if opnames is not None and op.name not in opnames:
             continue
         first = True
         for m in MSETS:
             if op.needs and op.needs not in m:
+                continue
+            if "L3" in m and op.needs != "L3" and op.ck not in L3_SENSITIVE:
+                aliases.append((op.name, m))  # taken to be unaffected by the converter registration
                 continue
             items.append((op.name, m, coverage and first))
             first = False
@@ -475,6 +481,8 @@ def compute_reference(opnames=None, timeout=60.0, coverage=False):
         R[(items[idx][0], frozenset(items[idx][1]))] = value
     if len(R) != len(items):
         raise HarnessError("reference table incomplete")
+    for name, m in aliases:
+        R[(name, frozenset(m))] = R[(name, frozenset(m) - {"L3"})]
     # calls whose result includes warnings or log records are the ones most easily disturbed by somebody
     # else's state (strictness flags, warning filters, leftovers): runs over-sample them as victims
     Z.sensitive = sorted({name for (name, m), rec in R.items() if (rec["w"] or rec["l"]) and not Z.op_by_name[name].needs})
